@@ -422,6 +422,25 @@ func (g *G) boolExpr(d int) *m.E {
 		return g.leaf(TBool)
 	case 1:
 		ty := pickS(g, "eqty", []Ty{TInt, TStr, TBool, TNull, TArrInt, TArrStr, THash1, TInt, TStr})
+		if g.intn("eqkeys", 0, 7) == 0 {
+			// hashes of one size over different keys, the odd key holding
+			// something that coerces like a missing entry (null, '', false):
+			// unequal all the same; also as needle and element of a list
+			odd := []*m.E{m.ENull(), m.EStr(""), m.EBool(false), m.ENum(0)}[g.intn("eqodd", 0, 3)]
+			l := &m.E{K: "hash", KS: []*m.E{g.hashKey("k0"), g.hashKey("k1")}, A: []*m.E{m.ENum(1), odd}}
+			r := &m.E{K: "hash", KS: []*m.E{g.hashKey("k0"), g.hashKey("k2")}, A: []*m.E{m.ENum(1), m.ENum(float64(g.intn("hv", 0, 9)))}}
+			if g.flip("eqone") {
+				l = &m.E{K: "hash", KS: []*m.E{g.hashKey("k1")}, A: []*m.E{odd}}
+				r = &m.E{K: "hash", KS: []*m.E{g.hashKey("k2")}, A: []*m.E{m.EStr("")}}
+			}
+			if g.flip("eqswap") {
+				l, r = r, l
+			}
+			if g.flip("eqin") {
+				return m.EBin(pickS(g, "in", []string{"in", "not in"}), l, m.EArr(r))
+			}
+			return m.EBin(pickS(g, "eq", []string{"==", "!="}), l, r)
+		}
 		return m.EBin(pickS(g, "eq", []string{"==", "!="}), g.Expr(ty, d-1), g.Expr(ty, d-1))
 	case 2:
 		if g.intn("cmpstr", 0, 3) == 0 {
